@@ -525,6 +525,6 @@ def _handle_editable_module(path: Path) -> list[_SP]:
             ):
                 build_path = Path(node.value.args[1].value, "src")
                 # NOTE: What if there are multiple packages?
-                pkg_name = next(build_path.iterdir()).name
+                pkg_name = min(build_path.iterdir()).name
                 return [_SP(build_path, always_scan_for=pkg_name)]
     raise UnhandledEditableModuleError(path)
